@@ -113,7 +113,12 @@ func GenerateC08(n int, seed int64) []Script {
 		if sc.Trace%2 == 0 {
 			// proxy mode: the default rule cannot forward (it has no forward_to), so it is left out
 			sc.Mode, sc.Default = "proxy", false
+		} else if sc.Trace%6 == 3 {
+			sc.Mode = "envoy" // the third entry point builds the request URL on its own
 		}
+
+		// what is logged must not matter
+		sc.Debug = sc.Trace%5 == 0
 
 		pick := func(s []string) string { return s[rng.Intn(len(s))] }
 
